@@ -98,14 +98,14 @@ def base_scenario(r, want=None):
     if oc < 0.3:
         out = posixpath.join(cwd, 'bb.out')
     else:
-        o = r.choice(('out.bin', 'out/prog.bin', '/w/proj/out/abs.bin', '../w_up.bin' if cwd != '/w' else 'up.bin', './dot.bin', 'fw.hex', 'FW.HEX', 'prog.bin.hex'))
+        o = r.choice(('out.bin', 'out/prog.bin', '/w/proj/out/abs.bin', '../w_up.bin' if cwd != '/w' else 'up.bin', './dot.bin', 'fw.hex', 'FW.HEX', 'prog.bin.hex', 'my out.bin', 'prog-\u00e9.bin'))
         if r.random() < 0.06:
             argv += ['-o', 'overridden.bin']          # a repeated option: the last one wins
         argv += [r.choice(('-o', '--output', '--out')), o]
         out = posixpath.normpath(posixpath.join(cwd, o))
     labels = None
     if r.random() < 0.6:
-        l = r.choice(('labels.txt', '/w/proj/out/labels.abs', 'out/l.txt'))
+        l = r.choice(('labels.txt', '/w/proj/out/labels.abs', 'out/l.txt', 'la bels.txt', 'l\u00e4bels.txt'))
         argv += [r.choice(('-l', '--labels', '--lab')), l]
         labels = posixpath.normpath(posixpath.join(cwd, l))
     hk = r.random()
